@@ -52,7 +52,7 @@ REACH_GRID = ((0.5, 0.05, 0.95), None)   # default answers of random.random(): r
 class Run:
     """One execution: answers choice i with prefix[i], and with alternative 0 beyond the prefix."""
     __slots__ = ('prefix', 'trace', 'weight', 'unscripted', 'float_policy_fn', 'ndraws', 'notes',
-                 'states', 'transitions', 'n_float', 'default_last')
+                 'states', 'transitions', 'n_float', 'default_last', 'reseeded', 'world')
 
     def __init__(self, prefix=(), float_policy=None, default_last=False):
         self.prefix = prefix
@@ -65,6 +65,15 @@ class Run:
         self.notes = []
         self.states = None
         self.transitions = 0
+        self.reseeded = {}       # generator prefix -> description of the library call that re-seeded it in this execution
+        self.world = ()          # answers to draws made AFTER such a re-seed: a fixed function of the seed, not random
+
+    def reseed(self, gen, what):
+        """The code under exploration re-seeded a global generator: every later draw from it is determined by the seed.
+        Such draws are still enumerated (the sequence the seed produces is unknown to the explorer) but they carry no
+        probability: they multiply the leaf weight by 1 and are recorded in run.world, so that a probabilistic oracle
+        can (and must) judge the distribution for every fixed answer sequence separately (see world_groups)."""
+        self.reseeded.setdefault(gen, what)
 
     def float_policy(self, label):
         i = self.n_float
@@ -87,6 +96,9 @@ class Run:
                 # default must be a possible alternative
                 c = next(j for j, w in enumerate(weights) if w != 0)
         self.trace.append((arity, c, cost, label, weights, keep_default))
+        if self.reseeded and label.startswith(tuple(self.reseeded)):
+            self.world = self.world + ((label, arity, c),)
+            return c
         if weights is None:
             self.weight = self.weight * Fraction(1, arity)
         else:
@@ -132,6 +144,32 @@ def execute(driver, prefix=(), float_policy=None, check_ownership=True, default_
     if check_ownership and scripted.generator_state() != before:
         run.unscripted += 1
     return run, result, viol
+
+
+def world_groups(leaves, cap=None):
+    """leaves: iterable of (world, payload).  A deterministic generator is one infinite answer sequence; the executions
+    consistent with it are those whose recorded world is a prefix of it.  Returns {maximal world: [payload, ...]} - one
+    group per maximal recorded world, containing every leaf whose world is a prefix of it (a leaf without post-re-seed
+    draws belongs to every group).  Without any re-seed there is exactly one group, keyed ()."""
+    by_world = {}
+    for w, payload in leaves:
+        by_world.setdefault(w, []).append(payload)
+    order = sorted(by_world, key=repr_key)
+    maximal = [w for i, w in enumerate(order) if i + 1 == len(order) or order[i + 1][:len(w)] != w]
+    if cap is not None and len(maximal) > cap:          # an evenly spread selection (deterministic)
+        step = len(maximal) / cap
+        maximal = [maximal[int(i * step)] for i in range(cap)]
+    out = {}
+    for m in maximal:
+        members = []
+        for ln in range(len(m) + 1):
+            members.extend(by_world.get(m[:ln], ()))
+        out[m] = members
+    return out
+
+
+def repr_key(world):
+    return tuple((lab, ar, c) for lab, ar, c in world)
 
 
 class Stats:
